@@ -5,9 +5,12 @@
    calls, task steps, attempt outcomes (scripted per attempt: ok / OSError, deferred / inline),
    connection_lost, GOAWAY, keepalive close, Channel.close(), task cancellation, pause/resume, answers. *)
 From Coq Require Import List Bool Arith.
-From Coq Require Import ZArith String.
+From Coq Require Import ZArith.
+From Coq Require String.
+Import String.StringSyntax.
 From GV Require Import Lib.Str Gen.FactsC16 Model.Channel Proofs.C16Proofs Proofs.C16Examples Proofs.C16Source.
 Import ListNotations.
+Open Scope nat_scope.
 
 (* (1) never more than one connection attempt in progress (lock holders, and attempts in flight) *)
 Theorem C16_one_attempt :
@@ -195,6 +198,7 @@ Print Assumptions C16_fifo_is_schedule.
    connect under the lock without re-check after the await, the three conjuncts of _connected,
    close() = processor.close() + del _protocol, Handler.close, EventsProcessor.close, connection_lost,
    process_connection_terminated, Connection.is_closing / close, the class attributes *)
+Open Scope string_scope.
 Theorem C16_source_as_transcribed :
   src_Channel_connected = map s2z exp_Channel_connected /\
   src_Channel_connect = map s2z exp_Channel_connect /\
